@@ -55,7 +55,17 @@ def get(f):
         return "!" + type(e).__name__
 
 
-def snapshot(doc, touch_extra=False):
+def style_view(c):
+    """What the library reads of a cell's style (read on a document that is not saved afterwards)."""
+    st = get(lambda: c.style)
+    if isinstance(st, str) or st is None:
+        return st
+    return tuple(repr(get(lambda a=a: getattr(st, a))) for a in
+                 ("name", "bold", "italic", "underline", "strikethrough", "font_name", "font_size", "font_color",
+                  "bg_color", "alignment", "first_indent", "left_indent", "right_indent", "text_inset", "text_wrap"))
+
+
+def snapshot(doc, touch_extra=False, with_styles=False):
     """Everything C02 lists, as a nested structure of plain values."""
     from numbers_parser.cell import ErrorCell, MergedCell
     snap = []
@@ -77,6 +87,7 @@ def snapshot(doc, touch_extra=False):
                         "bullets": get(lambda: c.bullets) if not isinstance(c, MergedCell) else None,
                         "hyperlinks": get(lambda: getattr(c, "hyperlinks", None)),
                         "merge": (get(lambda: c.is_merged), get(lambda: c.size), get(lambda: getattr(c, "rect", None))),
+                        "style": style_view(c) if with_styles else None,
                     }
                     if touch_extra:
                         get(lambda: c.style)
@@ -114,7 +125,7 @@ def diff_snap(a, b):
                 if cb == ("error-cell",):
                     return "type", f"{where} cell #{i}: became an error cell"
                 da, db = dict(ca), dict(cb)
-                for k in ("type", "value", "formula", "formatted", "bullets", "hyperlinks", "merge"):
+                for k in ("type", "value", "formula", "formatted", "bullets", "hyperlinks", "merge", "style"):
                     if da.get(k) != db.get(k):
                         r, c = divmod(i, max(ta["cols"], 1))
                         return k, f"{where} cell ({r},{c}): {k} {da.get(k)[:120]} -> {db.get(k)[:120]}"
@@ -126,7 +137,7 @@ def cycle(ctx: Ctx, name: str, src: Path, accessors: bool, cycles: int):
     d0, why = open_doc(src)
     if d0 is None:
         return why
-    ref = snapshot(d0)            # reference view of the source (separate open)
+    ref = snapshot(d0, with_styles=True)            # reference view of the source (separate open, never saved)
     cur, _ = open_doc(src)
     for k in range(cycles):
         if accessors:
@@ -144,14 +155,15 @@ def cycle(ctx: Ctx, name: str, src: Path, accessors: bool, cycles: int):
         if nxt is None:
             ctx.oracle_fail("reopen-fails", {"fixture": name, "accessors": accessors, "cycle": k + 1}, f"saved copy {why}")
             return "failed"
-        d = diff_snap(ref, snapshot(nxt))
+        d = diff_snap(ref, snapshot(nxt, with_styles=True))
         ctx.count("oracle-cycle")
         if d:
             ctx.oracle_fail(f"{d[0]}-changed", {"fixture": name, "accessors": accessors, "cycle": k + 1},
                             f"{name} (accessors before save: {accessors}) cycle {k + 1}: {d[1]}")
             return "failed"
+        # the copy that is saved next is opened afresh: the one just inspected has had its styles read
+        cur, _ = open_doc(out)
         out.unlink(missing_ok=True)
-        cur = nxt
     ctx.nontrivial((name, accessors))
     return "ok"
 
